@@ -159,6 +159,22 @@ def trans(psy):
 '''
 
 
+REPROD_SCRIPT = '''
+from psyclone.transformations import Dynamo0p3OMPLoopTrans, OMPParallelTrans
+from psyclone.psyir.nodes import Loop
+
+
+def trans(psy):
+    # OMP DO inside an OMP PARALLEL region, run-reproducible reductions
+    for inv in psy.invokes.invoke_list:
+        for loop in inv.schedule.walk(Loop):
+            if loop.loop_type == "dof":
+                Dynamo0p3OMPLoopTrans().apply(loop, {"reprod": True})
+                OMPParallelTrans().apply(loop.parent.parent)
+    return psy
+'''
+
+
 def field_init(seedmode, undf):
     seed, mode = seedmode
     out = []
@@ -189,8 +205,10 @@ def run(ctx, res, doc, T):
         incs = " ".join("-I %s" % d for d, _, _ in os.walk(infra))
         src, plan = driver_source(res["table"], T)
         (root / "omp_script.py").write_text(OMP_SCRIPT)
+        (root / "reprod_script.py").write_text(REPROD_SCRIPT)
         nvalues = 0
-        for variant, script, flags, env in (("serial", None, "", {}), ("openmp", str(root / "omp_script.py"), "-fopenmp", {"OMP_NUM_THREADS": "3"})):
+        for variant, script, flags, env in (("serial", None, "", {}), ("openmp", str(root / "omp_script.py"), "-fopenmp", {"OMP_NUM_THREADS": "3"}),
+                                            ("openmp_region_reprod", str(root / "reprod_script.py"), "-fopenmp", {"OMP_NUM_THREADS": "3"})):
             wd = root / variant
             wd.mkdir()
             (wd / "c20_driver.x90").write_text(src)
